@@ -34,6 +34,10 @@ DRIVER LINE PROTOCOL (one request per line on stdin, one response line per reque
      -> `ok extent_bytes=<n> buffer_bytes=<n> full_name=<s> major=<n> minor=<n> port_id=<n|none> [cap.<field>=<n> ...] [union_count=<n>] [const.<NAME>=<token> ...]`
   error classes: too_small | bad_length | bad_tag | bad_header | invalid_arg | format (Python: any FormatError/None result)
                  | rejected (Python: the object could not even be constructed: setter raised ValueError)
+  Conventions agreed between the runners: an empty hex string is always written `-` (`ok 0 -` for a zero-size
+  serialization); nnvg is run with --allow-unregulated-fixed-port-id (astdump reads with that flag); a token value that
+  does not fit the generated STORAGE type (300 for a uint8_t field, 2 for bool, array count absurdly large) -> `err rejected`;
+  malformed/missing/extra tokens or an unknown type id -> `err invalid_arg`; `meta` keys a target cannot provide are omitted.
   A driver must never crash; a crash / sanitizer report / timeout is reported by the runner as `crash <detail>`.
 """
 from __future__ import annotations
